@@ -1802,13 +1802,19 @@ func (t *tr) stmts1(list []ast.Stmt, c *ctx, ev *env, d int) (string, error) {
 		}
 		return "", bad(x, "%s outside the subset", x.Tok)
 	case *ast.IncDecStmt:
-		id, ok := x.X.(*ast.Ident)
-		if !ok {
-			return "", bad(x, "++/-- on a non-variable")
-		}
 		op := token.ADD
 		if x.Tok == token.DEC {
 			op = token.SUB
+		}
+		id, ok := x.X.(*ast.Ident)
+		if !ok && t.stateRecv != "" {
+			// a place inside the receiver of a state transformer: x++  is  x = x + 1
+			as := &ast.AssignStmt{Lhs: []ast.Expr{x.X}, TokPos: x.TokPos, Tok: token.ASSIGN,
+				Rhs: []ast.Expr{&ast.BinaryExpr{X: x.X, OpPos: x.TokPos, Op: op, Y: &ast.BasicLit{ValuePos: x.TokPos, Kind: token.INT, Value: "1"}}}}
+			return t.stmts(concat([]ast.Stmt{as}, rest), c, ev, d)
+		}
+		if !ok {
+			return "", bad(x, "++/-- on a non-variable")
 		}
 		be := &ast.BinaryExpr{X: id, OpPos: x.TokPos, Op: op, Y: &ast.BasicLit{ValuePos: x.TokPos, Kind: token.INT, Value: "1"}}
 		return t.assign(x, id, be, false, rest, c, ev, d)
